@@ -112,7 +112,7 @@ CLAIMED = {
     "C40": ("QUOTIENT (the stored estimate normalised to a linear form sum c_k F(y + k h e_i) over the function values actually obtained; consistency conditions sum c_k = 0, sum c_k k h = 1 and, off the order-1 path, sum c_k k^2 = 0), PERTURB (one coordinate at a time with restore on every path, every parameter, slot i), STEP (step from the displaced coordinate and from the accuracy factor of the path's order; order / factor tables), BASE (the nine shape adapters' unperturbed value belongs to the point) on Differentiator.cpp",
             "Static decision of the difference-scheme clauses of C40 (DESIGN section 3): for every function, dimension and point, each estimate the Differentiator stores is a finite-difference combination of function values taken with exactly one coordinate displaced by +-h, whose coefficients make it exact for affine functions (and, for the central method, for quadratics); the coordinate is restored before the next one is displaced; the step and the accuracy factor belong to the coordinate and to the order used; the base value belongs to the evaluation point. "
             "The size of the truncation and rounding error for a given smooth function -- the bound itself -- is numerical analysis and is NOT decided."),
-    "C36": ("TREE (root over all faces; node box from every corner of every face handed to the node; list k to child k; both children or a leaf holding all faces on every path), PARTITION (every face of the parent in exactly one child list), LEAF (whole-leaf scans; face / distance / coordinates written together from the scanned triangle), MERGE (an interior node's answer comes from one child) on ContactGeometry_TriangleMesh.cpp",
+    "C36": ("TREE (root over all faces; node box from every corner of every face handed to the node; list k to child k; both children or a leaf holding all faces on every path), PARTITION (every face of the parent in exactly one child list), LEAF (whole-leaf scans; face / distance / coordinates written together from the scanned triangle), MERGE (an interior node's answer comes from one child), DROPAXIS (the ray test's projection axes exclude the dominant normal axis, for every ordering of the magnitudes) on ContactGeometry_TriangleMesh.cpp",
             "Static decision of the tree-bookkeeping clauses of C36 (DESIGN section 3) for ContactGeometry::TriangleMesh: for every mesh, each OBB-tree node's box is built from all corners of all the faces the node holds, so 'each node contains its triangles' reduces to 'a box contains the points it was built from'; the leaves partition the faces and every leaf is scanned completely, so a complete descent sees exactly the faces a brute-force scan sees; the face, distance and coordinates reported belong to one triangle and one child. "
             "Containment by OrientedBoundingBox / Geo bounding spheres, the point-triangle and ray-triangle geometry, the soundness of the distance-based pruning of the descents, mesh topology and file round trips are NOT decided."),
     "C30": ("HOMOG (homogeneity-degree typing of the closed-form quadratic: every stored root has degree 0 in the coefficients; sums, differences and comparisons homogeneous; constants compared only as 0), COPY (cubic / general drivers: all n+1 coefficients in order, degree = number of roots asked for, output pair i to root i), STATUS (zero leading coefficient and solver failure codes throw) on PolynomialRootFinder.cpp",
